@@ -553,6 +553,24 @@ impl<'a> Ctx<'a> {
             if j.run_fail {
                 run_aborted = true;
             }
+            // the executor gave up although every process ended with an exit code and no fault
+            // was injected: nothing got recorded for commands that did complete
+            if let ExecResult::Failed { error, .. } | ExecResult::Aborted { error } = &d.exec {
+                if !j.run_fail && !j.faulted && j.stop.is_none() {
+                    for prop in ["C13", "C20"] {
+                        out.push(v(
+                            prop,
+                            "execution-error-without-cause",
+                            j.tests.first().map(|t| t.nonce.as_str()),
+                            format!(
+                                "document {}: every command completed with an exit code, yet scrut failed with: {}",
+                                self.sc.docs[d.doc].path,
+                                error.lines().next().unwrap_or("")
+                            ),
+                        ));
+                    }
+                }
+            }
             if no_report {
                 judgements.push(j);
                 continue;
@@ -662,6 +680,38 @@ impl<'a> Ctx<'a> {
                 }
             }
         }
+        // the command ended with an exit code, scrut recorded none
+        for (d, j) in self.obs.docs.iter().zip(judgements.iter()) {
+            if self.script_mode(&self.sc.docs[d.doc]) {
+                continue;
+            }
+            for tj in &j.tests {
+                let (Some(pid), Some(to)) = (tj.pid, d.tests.iter().find(|t| t.nonce == tj.nonce)) else {
+                    continue;
+                };
+                let p = &self.facts.procs[pid as usize];
+                let w = self.prog(&tj.nonce);
+                let (Some(code), Some(raw), Some(ce)) = (p.exit_code(), &to.raw, &p.comm_end) else {
+                    continue;
+                };
+                if !p.faults.is_empty() || w.has_bg_hold || p.killed.map(|k| p.exit_seq > k.2).unwrap_or(false) {
+                    continue;
+                }
+                let ended_before = p.exit.as_ref().map(|e| e.0 <= ce.0).unwrap_or(false);
+                let lost = ended_before && (ce.2 == "timed_out" || ce.2.starts_with("err:BrokenPipe"));
+                if lost && !matches!(raw.exit, ExitObs::Code { .. }) {
+                    out.push(v(
+                        "C13",
+                        "exit-code-lost",
+                        Some(&tj.nonce),
+                        format!(
+                            "test {} ended on its own with exit code {} at t={}ns, but {:?} was recorded (communication ended with {} at t={}ns)",
+                            tj.nonce, code, p.exit.as_ref().unwrap().0, raw.exit, ce.2, ce.0
+                        ),
+                    ));
+                }
+            }
+        }
         // bytes and exit codes
         for (d, j) in self.obs.docs.iter().zip(judgements.iter()) {
             for tj in &j.tests {
@@ -703,10 +753,14 @@ impl<'a> Ctx<'a> {
                 let tdoc = self.sc.docs.iter().find(|dd| dd.tests.iter().any(|t| t.nonce == tj.nonce)).unwrap_or(main);
                 let eff = self.sc.effective(main, tdoc, tdoc_t);
                 if eff.strip_ansi {
-                    // positive half only for the generator's plain SGR sequences
+                    // positive half only for the generator's plain SGR sequences; in
+                    // single-script mode the option is not available per test case, and the
+                    // property only says when sequences may be removed, so both are accepted
                     let so = strip_sgr(eo);
                     let se = strip_sgr(ee);
-                    if raw.stdout.0 != so || raw.stderr.0 != se {
+                    let untouched = &raw.stdout.0 == eo && &raw.stderr.0 == ee;
+                    let script = self.script_mode(main);
+                    if (raw.stdout.0 != so || raw.stderr.0 != se) && !(script && untouched) {
                         out.push(v(
                             "C13",
                             "bytes-differ",
